@@ -143,13 +143,14 @@ def catalogue(tier):
     # co-occurrence family: radius larger than every sequence, length-0/1 sequences, EM with epsilon, masks, threads, tiny buffers
     base = [dict(radii=[r], kernel=k, orient=o, normwin=True) for r in (1, 5) for k in ("flat", "harmonic") for o in ("after", "directional")]
     extras = [{}, {"n_iter": 1, "epsilon": 0.3}, {"n_iter": 2, "epsilon": 0.5}, {"n_iter": 2}, {"mask_string": "M", "excluded_tokens": ["b"], "nullify_mask": True},
-              {"wfun": "variable"}, {"coo_initial_memory": "1k", "n_threads": 16}, {"coo_initial_memory": "1k", "n_threads": 2, "n_iter": 1}]
+              {"wfun": "variable"}, {"coo_initial_memory": "1k", "n_threads": 16}, {"coo_initial_memory": "1k", "n_threads": 2, "n_iter": 1},
+              {"kargs": {"offset": 2}}, {"kargs": {"offset": 3, "normalize": True}, "n_iter": 1}]
     for kind in ("token", "timed", "multiset", "ngram"):
         for c in base:
             if kind in ("timed", "multiset") and c["kernel"] == "harmonic":
                 continue
             for ex in extras:
-                if kind == "multiset" and ex.get("wfun"):
+                if kind == "multiset" and (ex.get("wfun") or ex.get("kargs")):
                     continue
                 if kind == "ngram" and (c["radii"] == [5] or ex.get("n_threads") or tier == "quick" and ex.get("mask_string")):
                     continue
